@@ -109,6 +109,41 @@ func runC01(c *core.Ctx) {
 		c.SetExhaustive(false)
 	})
 
+	if !c.Quick() {
+		c.RunPart("l3-exhaustive-4", 30*time.Minute, func(c *core.Ctx) {
+			// all acyclic books among the 1048576 structures over four recipes x 24 insertion orders x both entry points
+			var acyclic []int
+			for s := 0; s < 1<<20; s++ {
+				if _, cyc := model.Chain(struct4Book(s)); !cyc {
+					acyclic = append(acyclic, s)
+				}
+			}
+			c.Count("exhaustive4_acyclic_structures", len(acyclic))
+			core.ParallelFor(len(acyclic), c.Procs, func(w, i int) {
+				b := struct4Book(acyclic[i])
+				want := model.Resolve(b)
+				if i%512 == 0 {
+					c.Crumb(w, fmt.Sprintf("4-recipe structure %d\n%s", acyclic[i], bookText(b)))
+				}
+				snaps := map[string]bool{}
+				for _, p := range perms4 {
+					for entry := 0; entry < 2; entry++ {
+						for k := 0; k < 2; k++ {
+							if snap := c01Eval(c, "exhaustive4", b, p, entry, 10, want, nil, true); snap != "" {
+								snaps[snap] = true
+							}
+						}
+					}
+				}
+				c.Nontrivial("s4", bookText(b))
+				if len(snaps) > 1 {
+					c.Violation("resolve|order-dependent", fmt.Sprintf("4-recipe structure %d resolves to %d different results depending on insertion order/entry point", acyclic[i], len(snaps)),
+						c01Replay{bookText(b), "all", -1, 10, "order dependent"})
+				}
+			})
+		})
+	}
+
 	c.RunPart("l3-random", 20*time.Minute, func(c *core.Ctx) {
 		n := c.N(2000, 40000)
 		core.ParallelFor(n, c.Procs, func(w, i int) {
